@@ -19,11 +19,17 @@ RULE = ("metamorphic on evaluate(): (pred, ref) vs (ref, pred) for all input typ
         "r replaced by -r/(1+r); compared when the matching is uniquely determined in both orientations; non-trivial = tp >= 1 and fp != fn")
 ASSUMPTIONS = ["ASSD symmetry is C07's theorem; here it is observed through the implementation"]
 TRUSTED = ["numpy/scipy C code (modelled, not verified)"]
-LEVEL_TEXT = ("Props/C11.v: IoU and Dice of a pair are unchanged under exchange; RVD maps to -r/(1+r); a one-to-one matching is valid for the candidates "
-              "iff its mirror image is valid for the mirrored candidates, and tie-freeness is preserved, so with C03's uniqueness the matched pairs "
-              "mirror each other; fp/fn exchange follows from C02's fp = num_pred - tp, fn = num_ref - tp. The assembled end-to-end statement is "
-              "decided by metamorphic correspondence (partial in Coq).")
-LEVEL_NOTE = "Coq: per-pair symmetry + transport of the matching specification under exchange; composition by correspondence. Trusted: Coq kernel, harness."
+LEVEL_TEXT = ("Props/C11.v, whole evaluation: C11_unmatched_input_pipeline_mirrored (unmatched input, one-to-one threshold matcher, symmetric matching "
+              "metric, matching determined) and C11_evaluation_phase_mirrored (matched input / evaluation phase) state that the result of the "
+              "exchanged problem is the mirror image of the original one -- num_pred <-> num_ref, fp <-> fn, precision <-> recall, the same tp and "
+              "rq, every per-instance IoU/Dice/ASSD list permuted, sq, std and pq equal as rationals -- for ALL label-map pairs; the edge-case "
+              "handler's EMPTY_PRED/EMPTY_REF entries are exchanged with the roles (the default handler is its own mirror image). Proved through: "
+              "symmetry of IoU/Dice on a pair, transport and uniqueness of the matching specification under exchange (C03), the relabelled arrays "
+              "of the two runs (one relabels predictions, the other the former references) differing by a locally injective renaming (C09), and "
+              "the result object's symmetry (C11_result_object_mirrored). RVD r becomes -r/(1+r) (exact quotients; RVD lists are excluded from the "
+              "pipeline theorem and decided by correspondence).")
+LEVEL_NOTE = ("Partial in Coq for semantic input (component numbering, by correspondence / C01 semantic theorem) and RVD lists after IEEE rounding. "
+              "Geometric values (ASSD) enter as parameters required to be symmetric (C07_symmetric). Trusted: Coq kernel, translator, harness.")
 TECHNIQUE = "machine-checked proof in Rocq (Coq) (symmetry lemmas, transport of the matching spec) + metamorphic correspondence on the implementation"
 
 
